@@ -634,6 +634,8 @@ pub struct Ex<H> {
     silent: bool,
     /// a fuse fired earlier in this history
     had_unwound: bool,
+    /// rotates through the constructors
+    ctor: u32,
 }
 
 fn two_mut<T>(v: &mut [T], a: usize, b: usize) -> (&mut T, &mut T) {
@@ -673,6 +675,7 @@ impl<H: BuildHasher + Default + Clone> Ex<H> {
             regtxt: String::new(),
             silent: false,
             had_unwound: false,
+            ctor: 0,
         }
     }
 
@@ -784,18 +787,29 @@ impl<H: BuildHasher + Default + Clone> Ex<H> {
             // ---- constructors -------------------------------------------
             "new" => {
                 let (k, r) = (kind_of(tok(t, 1)), num::<usize>(tok(t, 2)));
-                let v = match k {
-                    Kind::Pq => Reg::Pq(PQ::with_hasher(H::default())),
-                    Kind::Dpq => Reg::Dpq(DPQ::with_hasher(H::default())),
+                // every way of making an empty queue, in turn
+                self.ctor = self.ctor.wrapping_add(1);
+                let v = match (k, self.ctor % 4) {
+                    (Kind::Pq, 0) => Reg::Pq(PQ::with_hasher(H::default())),
+                    (Kind::Pq, 1) => Reg::Pq(PQ::default()),
+                    (Kind::Pq, 2) => Reg::Pq(PQ::with_default_hasher()),
+                    (Kind::Pq, _) => Reg::Pq(PQ::with_capacity_and_default_hasher(0)),
+                    (Kind::Dpq, 0) => Reg::Dpq(DPQ::with_hasher(H::default())),
+                    (Kind::Dpq, 1) => Reg::Dpq(DPQ::default()),
+                    (Kind::Dpq, 2) => Reg::Dpq(DPQ::with_default_hasher()),
+                    (Kind::Dpq, _) => Reg::Dpq(DPQ::with_capacity_and_default_hasher(0)),
                 };
                 self.set(r, v);
                 out.push_str("unit");
             }
             "withcap" => {
                 let (k, r, c) = (kind_of(tok(t, 1)), num::<usize>(tok(t, 2)), num::<usize>(tok(t, 3)));
-                let v = match k {
-                    Kind::Pq => Reg::Pq(PQ::with_capacity_and_hasher(c, H::default())),
-                    Kind::Dpq => Reg::Dpq(DPQ::with_capacity_and_hasher(c, H::default())),
+                self.ctor = self.ctor.wrapping_add(1);
+                let v = match (k, self.ctor % 2) {
+                    (Kind::Pq, 0) => Reg::Pq(PQ::with_capacity_and_hasher(c, H::default())),
+                    (Kind::Pq, _) => Reg::Pq(PQ::with_capacity_and_default_hasher(c)),
+                    (Kind::Dpq, 0) => Reg::Dpq(DPQ::with_capacity_and_hasher(c, H::default())),
+                    (Kind::Dpq, _) => Reg::Dpq(DPQ::with_capacity_and_default_hasher(c)),
                 };
                 self.set(r, v);
                 out.push_str("unit");
@@ -1243,6 +1257,23 @@ impl<H: BuildHasher + Default + Clone> Ex<H> {
             Kind::Pq => serde_json::from_str::<PQ<H>>(js).map(Reg::Pq),
             Kind::Dpq => serde_json::from_str::<DPQ<H>>(js).map(Reg::Dpq),
         };
+        // second path: through serde_json::Value, a deserializer that reports an
+        // exact size_hint (the text one reports none): the with_capacity branch
+        // of visit_seq.  Both paths must build the same queue.
+        let same = match (&v, serde_json::from_str::<serde_json::Value>(js)) {
+            (Ok(Reg::Pq(a)), Ok(val)) => match serde_json::from_value::<PQ<H>>(val) {
+                Ok(b) => *a == b && a.verif_snapshot() == b.verif_snapshot(),
+                Err(_) => false,
+            },
+            (Ok(Reg::Dpq(a)), Ok(val)) => match serde_json::from_value::<DPQ<H>>(val) {
+                Ok(b) => *a == b && a.verif_snapshot() == b.verif_snapshot(),
+                Err(_) => false,
+            },
+            _ => true,
+        };
+        if !same {
+            return Res::FaultPanic;
+        }
         match v {
             Ok(v) => {
                 self.set(r, v);
